@@ -376,6 +376,9 @@ def _through_capture(facts, b, v, depth=0):
     rest = list(reversed(proj[:-1]))
     parent = b.path.rsplit("::{closure#", 1)[0]
     pb = facts.bodies.get(parent)
+    if pb is None and "::{inl#" in parent:
+        # the closure of a helper that was spliced into its caller lives under an alias path `<caller>::{inl#helper}::{closure#k}`
+        pb = facts.bodies.get(parent.rsplit("::{inl#", 1)[0])
     if pb is None:
         return [v]
     ps = Sym(pb)
